@@ -441,7 +441,7 @@ static int export_schema(flatcc_builder_t *B, fb_options_t *opts, fb_schema_t *S
  *
  * Field sorting is done on the finished buffer.
  */
-static void sort_objects(void *buffer)
+static void sort_objects(void *buffer, int with_size)
 {
     size_t i;
     reflection_Schema_table_t schema;
@@ -450,7 +450,8 @@ static void sort_objects(void *buffer)
     reflection_Field_vec_t fields;
     reflection_Field_mutable_vec_t mfields;
 
-    schema = reflection_Schema_as_root(buffer);
+    /* A length prefixed buffer starts after the prefix. */
+    schema = reflection_Schema_as_root(with_size ? (uint8_t *)buffer + sizeof(flatbuffers_uoffset_t) : (uint8_t *)buffer);
     objects = reflection_Schema_objects(schema);
     for (i = 0; i < reflection_Object_vec_len(objects); ++i) {
         object = reflection_Object_vec_at(objects, i);
@@ -525,7 +526,7 @@ void *fb_codegen_bfbs_to_buffer(fb_options_t *opts, fb_schema_t *S, void *buffer
     if (!flatcc_builder_copy_buffer(B, buffer, *size)) {
         goto done;
     }
-    sort_objects(buffer);
+    sort_objects(buffer, opts->bgen_length_prefix);
 done:
     *size = flatcc_builder_get_buffer_size(B);
     flatcc_builder_clear(B);
@@ -551,7 +552,7 @@ void *fb_codegen_bfbs_alloc_buffer(fb_options_t *opts, fb_schema_t *S, size_t *s
     if (!(buffer = flatcc_builder_finalize_buffer(B, size))) {
         goto done;
     }
-    sort_objects(buffer);
+    sort_objects(buffer, opts->bgen_length_prefix);
 done:
     flatcc_builder_clear(B);
     return buffer;
